@@ -653,8 +653,40 @@ func TestC20Estimations(t *testing.T) {
 		}
 		steps := rapid.IntRange(2, 30).Draw(rt, "steps")
 		cleaned := false
+		forceNode := -1
 		for s := 0; s < steps; s++ {
-			switch rapid.SampledFrom([]string{"put", "put", "put", "put", "tick", "tick", "tick", "node"}).Draw(rt, "kind") {
+			kind := rapid.SampledFrom([]string{"put", "put", "put", "put", "put", "tick", "tick", "tick", "node", "blackout"}).Draw(rt, "kind")
+			if forceNode >= 0 {
+				kind = "put"
+			}
+			switch kind {
+			case "blackout":
+				// every node leaves, an epoch publishes an empty map, one node comes back and is admitted by the next
+				// tick: the previous epoch's map is empty while the current one is not - "nobody was there" is not
+				// "everybody may"
+				for i := 0; i < 3; i++ {
+					w.c.Invoke(w.alpha, w.nm, "updateStateIR", 2, pubOf(i))
+				}
+				back := rapid.IntRange(0, 2).Draw(rt, "comesBack")
+				for j := 0; j < 2; j++ {
+					if j == 1 {
+						w.c.Invoke(w.alpha, w.nm, "addPeerIR", legacyInfo(pubOf(back), 1))
+					}
+					cur++
+					if o := w.c.Invoke(w.alpha, w.nm, "newEpoch", cur); !o.Halt {
+						fail("C20 harness: tick: %s", o)
+					}
+					for k := range model {
+						if cur-k.epoch > 4 {
+							delete(model, k)
+							cleaned = true
+							h.Mark("cleaned-by-tick")
+						}
+					}
+				}
+				forceNode = back
+				h.Op("blackout: all nodes leave, tick to %d (empty map), node %d returns, tick to %d", cur-1, back, cur)
+				h.Mark("previous-map-empty-current-not")
 			case "node":
 				i := rapid.IntRange(0, 2).Draw(rt, "node")
 				if rapid.Bool().Draw(rt, "add") {
@@ -690,6 +722,9 @@ func TestC20Estimations(t *testing.T) {
 				}
 				ni := rapid.IntRange(0, 2).Draw(rt, "node")
 				bi := rapid.IntRange(0, 2).Draw(rt, "container")
+				if forceNode >= 0 {
+					ni, bi, forceNode = forceNode, bi%2, -1
+				}
 				var b *cntBlob
 				if bi < 2 {
 					b = blobs[bi]
